@@ -30,6 +30,29 @@ def entries(ctx, rule):
     return out
 
 
+def is_str_slice(s):
+    t = s.body.blocks[s.bb]["term"] if hasattr(s, "bb") else None
+    if not t or t.get("k") != "call":
+        return False
+    fn = t["func"].get("fn") or {}
+    full = (fn.get("resolved") or "") + " " + (fn.get("full") or "") + " " + (fn.get("def") or "")
+    return "for str>::index" in full or "str::traits::<impl" in full and "Index" in full
+
+
+def has_call(P, body, name):
+    """the root function of `body` (closures included) calls a function / method called `name`"""
+    root = P.bodies.get(body.crate + "::" + body.root) if getattr(body, "root", None) else body
+    root = root or body
+    for b in [root] + P.closures_of(root):
+        for cs in b.calls():
+            if cs.name == name:
+                return True
+            for a in cs.term.get("args", []):
+                if a.get("k") == "const" and name in (a.get("s") or ""):
+                    return True
+    return False
+
+
 def r1(ctx):
     rule = "C14.R1"
     ctx.rule(rule, "T1 census: every panic-capable construct (explicit panic / unwrap / expect / indexing / slicing / arithmetic and "
@@ -51,16 +74,28 @@ def r1(ctx):
         n += 1
         d = TT.discharge(T, s, gc)
         detail = {"function": s.body.path, "sink": s.kind, "operands": [X.render(e)[:100] for e in s.ops][:3], "location": s.loc}
+        if d is not None and d[0] != "untainted" and is_str_slice(s):
+            # slicing a str panics on a bad bound *and* inside a multi-byte character: a dominating bounds test (D1/D5) says
+            # nothing about the second obligation, so these sites need a reviewed entry that names the ASCII / boundary fact
+            d = None
+            detail["note"] = "str slice: bounds test alone does not discharge the char-boundary obligation"
         if d is not None:
             stats[d[0]] = stats.get(d[0], 0) + 1
             detail["discharged_by"] = d[0] + ": " + d[1][:160]
             ctx.ok(rule, s.key, detail)
             continue
         if s.key in table:
-            stats["D6"] = stats.get("D6", 0) + 1
-            detail["discharged_by"] = "D6: " + table[s.key]
-            ctx.ok(rule, s.key, detail)
-            continue
+            ent = table[s.key]
+            reason = ent if isinstance(ent, str) else ent["reason"]
+            missing = [] if isinstance(ent, str) else [r for r in ent.get("requires", []) if not has_call(P, s.body, r)]
+            if not missing:
+                stats["D6"] = stats.get("D6", 0) + 1
+                detail["discharged_by"] = "D6: " + reason
+                if not isinstance(ent, str):
+                    detail["required_facts"] = ent.get("requires", [])
+                ctx.ok(rule, s.key, detail)
+                continue
+            detail["reviewed_reason_no_longer_holds"] = {"reason": reason, "missing_facts": missing}
         stats["open"] = stats.get("open", 0) + 1
         ctx.fail(rule, s.key, "%s is reachable from the front-end entry points without a dominating test: malformed input can panic instead "
                               "of producing an error" % s.kind, s.loc, detail)
